@@ -168,6 +168,7 @@ PROPS = {
         "parts": {
             "paths": {"bin": "verifh", "run": "TestC18Paths", "checks": {"quick": 5000, "thorough": 300000}, "shards": {"quick": 1, "thorough": 8}},
             "pairs": {"bin": "verifh", "run": "TestC18Pairs", "kind": "plain", "shards": {"quick": 4, "thorough": 16}},
+            "cycles": {"bin": "verifh", "run": "TestC18Cycles", "checks": {"quick": 40, "thorough": 4000}, "shards": {"quick": 2, "thorough": 16}},
             "big": {"bin": "verifh", "run": "TestC18Big", "checks": {"quick": 300, "thorough": 20000}, "shards": {"quick": 2, "thorough": 16}},
         },
     },
